@@ -13,7 +13,7 @@ RULE = ("programs = loss kind (ODE / stationary 2-D with border / non-stationary
         "system) x optimizer (sgd, adam, chain(clip, adam(schedule))) x (n, batch) with b | n and b !| n, iteration "
         "counts crossing >= 2 epoch boundaries x auxiliary generators {none, parameter, observation, both} x "
         "tracked spec (none / equation parameter / network leaf) x resumed (solve(n1) then solve(n2) with the "
-        "returned parameters, optimizer state and generator); non-trivial = a reshuffle happened inside the run "
+        "returned parameters, optimizer state and generator) x verbosity (silent / the default printing path); non-trivial = a reshuffle happened inside the run "
         "and the loss history is not constant; distinct = distinct program descriptions")
 ASSUMPTIONS = [
     "the number p of batches solve() consumes before iteration 0 is not fixed by the statement: inferred in {0,1} from the "
@@ -24,9 +24,9 @@ ASSUMPTIONS = [
 ]
 TIMEOUT = {"quick": 1800, "thorough": 7200}
 MIN_COUNTERS = {"quick": {"programs_compared": 24, "iterations_compared": 200, "programs_with_reshuffle": 15,
-                          "programs_with_tracked_gradient": 6, "resumed_programs": 4},
+                          "programs_with_tracked_gradient": 6, "resumed_programs": 4, "programs_with_default_verbosity": 6},
                 "thorough": {"programs_compared": 200, "iterations_compared": 1500, "programs_with_reshuffle": 120,
-                             "programs_with_tracked_gradient": 50, "resumed_programs": 40}}
+                             "programs_with_tracked_gradient": 50, "resumed_programs": 40, "programs_with_default_verbosity": 50}}
 
 
 def gen_cases(tier, seed):
@@ -62,6 +62,8 @@ def gen_cases(tier, seed):
         # the non-compiled branch of solve (Python while loop) is taken when an observation-batch sharding is given
         prog["sharding"] = bool(prog["aux"] in ("obs", "both") and k % 3 == 0)
         prog["inf_placeholder"] = bool(kind in ("ode", "statio2", "nonstatio1") and k % 5 == 2)
+        # solve's default is verbose=True (loss printed every print_loss_every iterations from inside the loop)
+        prog["verbose"] = bool(k % 3 == 1)
         cases.append(dict(prog=prog, cost=2.0 + (1.0 if prog["resumed"] else 0.0)))
     return cases
 
@@ -143,10 +145,14 @@ def run_case(case, rec):
     if shard is not None:
         rec.count("programs_non_compiled_branch")
 
+    verb = dict(print_loss_every=2) if prog.get("verbose") else dict(verbose=False)
+    if prog.get("verbose"):
+        rec.count("programs_with_default_verbosity")
+
     def run_solve(n_it, params, data, pdata, odata, opt_state):
         return guard.call(jinns.solve, n_iter=n_it, init_params=params, data=data, loss=P["loss"], optimizer=opt,
                           opt_state=opt_state, tracked_params=tracked, param_data=pdata, obs_data=odata,
-                          obs_batch_sharding=shard, verbose=False)
+                          obs_batch_sharding=shard, **verb)
 
     vgc = {}
     out = run_solve(n, P["params"], P["data"], P["param_data"], P["obs_data"], None)
